@@ -6,6 +6,11 @@ ENV = "GOFLAGS=-mod=mod GOPROXY=off GOSUMDB=off GOTOOLCHAIN=local GOWORK=off"
 
 # id -> (clause decided, level_note (assumed / trusted / NOT decided), technique, design_ref)
 CLAIMED = {
+    "C01": (
+        "The clauses of the statement that are visible in the code-generation templates (one per node kind and path, extracted from the compiler's scheme methods) and in the VM's handlers, for programs of any size by induction over the tree: every template evaluates every child slot of its kind exactly once in source order (list slots by one loop, the fixed-arity builtins by the indices of the parser's arity table, optional slots skipped only under their own nil test); abstract execution of the `and`, `or` and conditional templates against the VM's jump signatures yields, for each truth value of the deciding operand, exactly the operands the definition requires to be evaluated and the right result operand; each binary/unary operator's template ends in the instruction(s) whose handler applies the Go primitive the operator denotes, every such handler applies ONE primitive on all completing paths, and (left, right) reach the primitive's (first, second) parameter — (subject, pattern) for matches; call handlers and array/map builders fill position i with the i-th pushed value and each call handler invokes its callee exactly once; no library rewrite uses an operand twice; no run-time helper compares two dynamic values with Go's ==. Each is a necessary condition of the property; the value-level conformance itself is not claimed.",
+        "Trusted: go/types; the template and signature extractors shared with C05 (fail closed); the small table of what each DSL operator denotes (tool/props/c01.go, from docs/Language-Definition.md). Two known findings (F13: a slice's upper bound is evaluated before its lower bound; F12: the range rewrite shares one operand node). NOT decided: the values computed by fetch, slice, in, length, makeRange and reflective calls, nil-safe navigation, error conditions; feasibility of template paths; results of the loop builtins (C18) and numeric promotion (C14).",
+        "template/handler analysis: child-coverage and order census over extracted templates, symbolic execution of short-circuit templates against VM jump signatures, operator → instruction → handler → primitive chain with composed operand order, counted-loop shape of call handlers, rewrite linearity",
+        "DESIGN.md §4 C01"),
     "C02": (
         "Per rewrite site of the optimizer (every call of ast.Patch, directly or through a local wrapper), the clauses without which the rewrite cannot be meaning-preserving: a rewrite that keeps a dynamic operand of the matched node while replacing its sibling or operator (literal-array membership → map lookup, literal-range membership → two comparisons) is reached only on paths whose conditions pin the operand's STATIC TYPE to one predeclared kind (not nil, not another kind, not a named type), the kind being the lookup map's key kind; a fold that computes on integer literals in Go int under an operator through which the checker's literal retyping descends is reached only for literals whose type is nil or plain int; no replacement uses an operand twice or drops a child that the path has not established to be a literal; the only errors the optimizer creates are the constant division/modulo by zero and the recovered panic of a compile-time call, and Optimize returns nothing else; expr.Compile runs the optimizer only under the Optimize option, after the last type check, operator patch and visitors, before code generation; each fold applies the Go operator (math.Pow for **) that its case's DSL operator denotes, operands in order; constant integer division is dominated by the zero test; `x in a..b` becomes `x >= a and x <= b`, `not in` its negation. Each is a necessary condition with a concrete optimized-vs-unoptimized counterexample when broken.",
         "Trusted: go/types, the rewrite-site extractor, the path enumerator and the finite abstract evaluation of type guards (nil | kind × named/predeclared; three-valued, so a condition it cannot read excludes nothing and the site fails closed). Two known findings (F9n: an operand without static type still reaches the range rewrite; F12: the range rewrite shares one operand node). NOT decided: equality of results itself; integer overflow differences between folded and run-time arithmetic; purity of ConstExpr functions; agreement of the compile-time and run-time range builders (R2.7) and element order of literal-array folds (R2.8), not built.",
@@ -76,7 +81,6 @@ CLAIMED = {
 # properties not claimed: id -> reason
 _NOT_BUILT = "DESIGN.md §4 names the structural clause static analysis could decide, but the checker for it was not built in the time available; nothing is claimed. The behavioural statement itself quantifies over run-time values (results of evaluation for every input and environment) and no sound static argument in reach bounds those"
 NOT_APPLICABLE = {
-    "C01": "conformance of evaluated results to the language definition for every expression and environment value is a statement about run-time values; the structural clauses of DESIGN.md §4 C01 (dispatcher exhaustiveness, operand order of templates, short-circuit shape) were not built. " + _NOT_BUILT,
     "C03": "type soundness over all environment values of a type needs an abstract interpretation of checker and VM over reflect types that is out of reach; the agreement rules of DESIGN.md §4 C03 were not built. " + _NOT_BUILT,
     "C15": "equality of results between typed and untyped compilation for every environment value is a run-time equivalence; the instruction-selection guard rules of DESIGN.md §4 C15 were not built. " + _NOT_BUILT,
     "C16": "agreement of the checker's name table with reflection-based lookup for every environment type quantifies over all Go types; the member-class agreement rules of DESIGN.md §4 C16 were not built. " + _NOT_BUILT,
